@@ -591,7 +591,7 @@ func (p *Pollard) WriteTo(w io.Writer) (int64, error) {
 	binary.LittleEndian.PutUint64(buf[:], p.NumLeaves)
 	bytes, err := w.Write(buf[:])
 	if err != nil {
-		return totalBytes, err
+		return totalBytes + int64(bytes), err
 	}
 	totalBytes += int64(bytes)
 
@@ -599,7 +599,7 @@ func (p *Pollard) WriteTo(w io.Writer) (int64, error) {
 	binary.LittleEndian.PutUint64(buf[:], p.NumDels)
 	bytes, err = w.Write(buf[:])
 	if err != nil {
-		return totalBytes, err
+		return totalBytes + int64(bytes), err
 	}
 	totalBytes += int64(bytes)
 
@@ -607,7 +607,7 @@ func (p *Pollard) WriteTo(w io.Writer) (int64, error) {
 	for _, root := range p.Roots {
 		bytes, err := writeOne(root, w)
 		if err != nil {
-			return totalBytes, err
+			return totalBytes + bytes, err
 		}
 
 		totalBytes += bytes
@@ -624,7 +624,7 @@ func writeOne(n *polNode, w io.Writer) (int64, error) {
 	}
 	wroteBytes, err := w.Write(n.data[:])
 	if err != nil {
-		return totalBytes, err
+		return totalBytes + int64(wroteBytes), err
 	}
 	totalBytes += int64(wroteBytes)
 
@@ -636,13 +636,13 @@ func writeOne(n *polNode, w io.Writer) (int64, error) {
 	if lChild == nil && rChild == nil {
 		wroteBytes, err := w.Write([]byte{1})
 		if err != nil {
-			return totalBytes, err
+			return totalBytes + int64(wroteBytes), err
 		}
 		totalBytes += int64(wroteBytes)
 	} else {
 		wroteBytes, err := w.Write([]byte{0})
 		if err != nil {
-			return totalBytes, err
+			return totalBytes + int64(wroteBytes), err
 		}
 		totalBytes += int64(wroteBytes)
 	}
@@ -653,25 +653,25 @@ func writeOne(n *polNode, w io.Writer) (int64, error) {
 	if n.lNiece != nil && n.rNiece != nil {
 		wroteBytes, err := w.Write([]byte{1})
 		if err != nil {
-			return totalBytes, err
+			return totalBytes + int64(wroteBytes), err
 		}
 		totalBytes += int64(wroteBytes)
 
 		leftBytes, err := writeOne(n.lNiece, w)
 		if err != nil {
-			return totalBytes, err
+			return totalBytes + leftBytes, err
 		}
 		totalBytes += leftBytes
 
 		rightBytes, err := writeOne(n.rNiece, w)
 		if err != nil {
-			return totalBytes, err
+			return totalBytes + rightBytes, err
 		}
 		totalBytes += rightBytes
 	} else {
 		wroteBytes, err := w.Write([]byte{0})
 		if err != nil {
-			return totalBytes, err
+			return totalBytes + int64(wroteBytes), err
 		}
 		totalBytes += int64(wroteBytes)
 	}
@@ -688,7 +688,7 @@ func RestorePollardFrom(r io.Reader) (int64, *Pollard, error) {
 	var buf [8]byte
 	readBytes, err := io.ReadFull(r, buf[:])
 	if err != nil {
-		return totalBytes, nil, err
+		return totalBytes + int64(readBytes), nil, err
 	}
 	totalBytes += int64(readBytes)
 	p.NumLeaves = binary.LittleEndian.Uint64(buf[:])
@@ -696,7 +696,7 @@ func RestorePollardFrom(r io.Reader) (int64, *Pollard, error) {
 	// Read NumDels.
 	readBytes, err = io.ReadFull(r, buf[:])
 	if err != nil {
-		return totalBytes, nil, err
+		return totalBytes + int64(readBytes), nil, err
 	}
 	totalBytes += int64(readBytes)
 	p.NumDels = binary.LittleEndian.Uint64(buf[:])
@@ -708,7 +708,7 @@ func RestorePollardFrom(r io.Reader) (int64, *Pollard, error) {
 		p.Roots[i] = new(polNode)
 		readBytes, err := p.readOne(p.Roots[i], r)
 		if err != nil {
-			return totalBytes, nil, err
+			return totalBytes + readBytes, nil, err
 		}
 
 		totalBytes += readBytes
@@ -731,7 +731,7 @@ func (p *Pollard) readOne(n *polNode, r io.Reader) (int64, error) {
 	// written out so hitting EOF here means that the stream is truncated.
 	readBytes, err := io.ReadFull(r, n.data[:])
 	if err != nil {
-		return totalBytes, err
+		return totalBytes + int64(readBytes), err
 	}
 	totalBytes += int64(readBytes)
 
@@ -740,7 +740,7 @@ func (p *Pollard) readOne(n *polNode, r io.Reader) (int64, error) {
 	var buf [1]byte
 	readBytes, err = io.ReadFull(r, buf[:])
 	if err != nil {
-		return totalBytes, err
+		return totalBytes + int64(readBytes), err
 	}
 	totalBytes += int64(readBytes)
 	if buf[0] == 1 {
@@ -753,7 +753,7 @@ func (p *Pollard) readOne(n *polNode, r io.Reader) (int64, error) {
 	// for the nieces as well.
 	readBytes, err = io.ReadFull(r, buf[:])
 	if err != nil {
-		return totalBytes, err
+		return totalBytes + int64(readBytes), err
 	}
 	totalBytes += int64(readBytes)
 
@@ -761,14 +761,14 @@ func (p *Pollard) readOne(n *polNode, r io.Reader) (int64, error) {
 		n.lNiece = &polNode{aunt: n}
 		leftBytes, err := p.readOne(n.lNiece, r)
 		if err != nil {
-			return totalBytes, err
+			return totalBytes + leftBytes, err
 		}
 		totalBytes += leftBytes
 
 		n.rNiece = &polNode{aunt: n}
 		rightBytes, err := p.readOne(n.rNiece, r)
 		if err != nil {
-			return totalBytes, err
+			return totalBytes + rightBytes, err
 		}
 		totalBytes += rightBytes
 	}
